@@ -170,6 +170,67 @@ class VOpaque(V):
 
 
 @dataclass
+class VSymList(V):
+    """A list of statically unknown length: two explicit leading elements, a generic (universal) element `*`
+    and a witness (existential) element `w` for the rest."""
+
+    name: str
+    elem_alts: List[Any]
+    kind = "symlist"
+
+
+@dataclass
+class VGen(V):
+    """A generator expression, evaluated lazily by any() / all()."""
+
+    node: Any
+    env: Any
+    fi: Any
+    kind = "genexp"
+
+
+NELEMS_SYM = 2
+
+
+def symlist_len(ctx: "Ctx", v: VSymList) -> str:
+    n = ctx.declare(f"{v.name}.len", "Int")
+    ctx.assume(smt.Le("0", n))
+    return n
+
+
+def symlist_elem(ctx: "Ctx", v: VSymList, k) -> "V":
+    key = ("symelem", v.name, k)
+    if key not in ctx.memo:
+        e = new_value(ctx, f"{v.name}<{k}>", v.elem_alts)
+        ctx.assume(dyn_range_constraint(ctx, e))
+        ctx.memo[key] = e
+    return ctx.memo[key]
+
+
+def rest_quantifier(ctx: "Ctx", is_any: bool, length: str, elem, pred) -> bool:
+    """any()/all() of pred over a sequence abstracted as explicit elements 0..NELEMS_SYM-1, generic `*`, witness `w`.
+    elem(k) -> value ; pred(value) -> bool (may fork).  Returns the concrete result on this path."""
+    k = ctx.choose([Eq(length, "0")] + [Eq(length, smt.sint(i)) for i in range(1, NELEMS_SYM + 1)] + [smt.Gt(length, smt.sint(NELEMS_SYM))])
+    for i in range(min(k, NELEMS_SYM)):
+        t = pred(elem(i))
+        if is_any and t:
+            return True
+        if not is_any and not t:
+            return False
+    if k <= NELEMS_SYM:
+        return not is_any
+    exists = ctx.choose([TRUE, TRUE]) == 0  # some remaining element decides / none does
+    if exists:
+        if pred(elem("w")) != is_any:
+            raise Infeasible()
+        return is_any
+    for kk in ("*", "w"):
+        if pred(elem(kk)) == is_any:
+            raise Infeasible()
+    return not is_any
+
+
+@dataclass
 class VExternal(V):
     """Something reached through an import that the world does not model (dotted name)."""
 
@@ -380,6 +441,8 @@ ALT_TAGS = {"none": 0, "bool": 1, "int": 2, "float": 3, "str": 4, "notimpl": 5, 
 def alt_tag(world: World, alt) -> str:
     if isinstance(alt, tuple) and alt[0] == "obj":
         return world.class_id(alt[1])
+    if isinstance(alt, tuple) and alt[0] == "symlist":
+        return smt.sint(ALT_TAGS["list"])
     return smt.sint(ALT_TAGS[alt])
 
 
@@ -404,6 +467,8 @@ def make_alt(ctx: Ctx, name: str, alt) -> V:
         return VObj(None if alt == "other" else f"<{alt}>", ctx.declare(f"{name}.oid", "Int"))
     if isinstance(alt, tuple) and alt[0] == "obj":
         return VObj(alt[1], ctx.declare(f"{name}.oid", "Int"))
+    if isinstance(alt, tuple) and alt[0] == "symlist":
+        return VSymList(name, [("obj", alt[1])] if isinstance(alt[1], str) else list(alt[1]))
     raise Unsupported(f"alt {alt}")
 
 
@@ -911,6 +976,8 @@ class Interp:
                 return VInt(smt.sint(len(v.items)))
             if isinstance(v, VStr):
                 return VInt(f"(str.len {v.t})")
+            if isinstance(v, VSymList):
+                return VInt(symlist_len(ctx, v))
             hook = getattr(self, "len_hook", None)
             if hook is not None:
                 return hook(ctx, v)
@@ -930,6 +997,12 @@ class Interp:
             return VBool(self.truth_term(ctx, args[0]))
         if name in ("any", "all"):
             v = force(ctx, args[0])
+            if isinstance(v, VGen) and not hasattr(self, "anyall_hook"):
+                return self.anyall_gen(ctx, name, v)
+            if isinstance(v, VGen):
+                r = self.anyall_gen(ctx, name, v, allow_fallback=True)
+                if r is not None:
+                    return r
             if isinstance(v, (VList, VTuple)):
                 for it in v.items:
                     t = self.truth(ctx, it)
@@ -948,6 +1021,34 @@ class Interp:
             if r is not None:
                 return r
         raise Unsupported(f"builtin {name}")
+
+    def anyall_gen(self, ctx: Ctx, name: str, v: "VGen", allow_fallback: bool = False):
+        e = v.node
+        if len(e.generators) != 1 or e.generators[0].ifs or e.generators[0].is_async:
+            raise Unsupported("generator shape")
+        g = e.generators[0]
+        it = force(ctx, self.eval(ctx, g.iter, v.env, v.fi))
+        is_any = name == "any"
+
+        def pred(node) -> bool:
+            env2 = dict(v.env)
+            self.assign(ctx, g.target, node, env2, v.fi)
+            return self.truth(ctx, self.eval(ctx, e.elt, env2, v.fi))
+
+        if isinstance(it, (VList, VTuple)):
+            for item in it.items:
+                t = pred(item)
+                if is_any and t:
+                    return VBool(TRUE)
+                if not is_any and not t:
+                    return VBool(FALSE)
+            return VBool(FALSE if is_any else TRUE)
+        if isinstance(it, VSymList):
+            r = rest_quantifier(ctx, is_any, symlist_len(ctx, it), lambda k: symlist_elem(ctx, it, k), pred)
+            return VBool(TRUE if r else FALSE)
+        if allow_fallback:
+            return None
+        raise Unsupported(f"{name} over {it}")
 
     def call_function(self, ctx: Ctx, qualname: str, args: List[V], kwargs: Dict[str, V]) -> V:
         if qualname.startswith("builtin:"):
@@ -1088,6 +1189,23 @@ class Interp:
                 for item in it.items:
                     self.assign(ctx, s.target, item, env, fi)
                     self.exec_block(ctx, s.body, env, fi)
+                self.exec_block(ctx, s.orelse, env, fi)
+                return
+            if isinstance(it, VSymList) and _is_search_loop(s):
+                # `for x in xs: if P(x): return/raise ...`  ==  the any()-abstraction with the body as predicate
+                def pred(node) -> bool:
+                    env2 = dict(env)
+                    self.assign(ctx, s.target, node, env2, fi)
+                    try:
+                        self.exec_block(ctx, s.body, env2, fi)
+                    except _Return as r:
+                        ctx.ghost["__loop_return__"] = r.v
+                        return True
+                    return False
+
+                found = rest_quantifier(ctx, True, symlist_len(ctx, it), lambda k: symlist_elem(ctx, it, k), pred)
+                if found:
+                    raise _Return(ctx.ghost.pop("__loop_return__"))
                 self.exec_block(ctx, s.orelse, env, fi)
                 return
             hook = getattr(self, "for_hook", None)
@@ -1252,6 +1370,8 @@ class Interp:
                 if r is not None:
                     return r
             raise Unsupported(f"subscript {base.kind}[{idx.kind}]")
+        if isinstance(e, ast.GeneratorExp) and not hasattr(self, "expr_hook"):
+            return VGen(e, dict(env), fi)
         if isinstance(e, ast.Lambda):
             q = f"{fi.qualname}.<lambda@{e.lineno}:{e.col_offset}>"
             self.world.functions[q] = FunctionInfo(q, e, None, fi.source_file, fi.globals_ns, closure=env, inline=True)
@@ -1286,6 +1406,16 @@ class Interp:
             r = self.op_in(ctx, a, b)
             return VBool(Not(self.truth_term(ctx, r)))
         raise Unsupported("cmpop")
+
+
+def _is_search_loop(s: ast.For) -> bool:
+    """Body is a single `if <test>: return <expr>` (no else, no assignments): a search loop."""
+    if s.orelse:
+        return False
+    if len(s.body) != 1 or not isinstance(s.body[0], ast.If) or s.body[0].orelse:
+        return False
+    inner = s.body[0].body
+    return len(inner) == 1 and isinstance(inner[0], ast.Return)
 
 
 def const_value(c: Any) -> V:
